@@ -42,6 +42,9 @@ type input struct {
 	K0    string `json:"k0"`    // gated | oncancel-succ | oncancel-fail
 	K1    string `json:"k1"`
 	Sched []item `json:"sched"`
+	// CloseErr makes every member reader's Close return an error (the property does not
+	// depend on what Close returns; the model's prediction is the same).
+	CloseErr bool `json:"close_err,omitempty"`
 }
 
 var entries = []string{"GetBlob", "GetBlobRange", "GetManifest", "ResolveBlob", "ResolveManifest"}
@@ -62,13 +65,14 @@ type fakeReader struct {
 	desc   ociregistry.Descriptor
 	mu     sync.Mutex
 	closes int
+	err    error
 }
 
 func (r *fakeReader) Close() error {
 	r.mu.Lock()
 	r.closes++
 	r.mu.Unlock()
-	return nil
+	return r.err
 }
 func (r *fakeReader) Descriptor() ociregistry.Descriptor { return r.desc }
 
@@ -87,6 +91,7 @@ type member struct {
 	deadAtRet bool
 	rd        *fakeReader
 	calls     int
+	closeErr  error // returned by Close of the readers this member hands out
 }
 
 // call is where a member call waits; its name is looked for in the goroutine profile.
@@ -118,7 +123,8 @@ func (m *member) reader(ctx context.Context) (ociregistry.BlobReader, error) {
 	if m.call(ctx) {
 		content := fmt.Sprintf("content of member %d", m.idx)
 		rd := &fakeReader{Reader: bytes.NewReader([]byte(content)),
-			desc: ociregistry.Descriptor{MediaType: "application/octet-stream", Digest: memberDigest(m.idx), Size: int64(len(content))}}
+			desc: ociregistry.Descriptor{MediaType: "application/octet-stream", Digest: memberDigest(m.idx), Size: int64(len(content))},
+			err:  m.closeErr}
 		m.finish(ctx, true, rd)
 		return rd, nil
 	}
@@ -263,6 +269,10 @@ func runCase(in input) runResult {
 		base[g.id] = true
 	}
 	ms := [2]*member{newMember(0, in.K0), newMember(1, in.K1)}
+	if in.CloseErr {
+		ms[0].closeErr = errors.New("close of member 0's reader fails")
+		ms[1].closeErr = errors.New("close of member 1's reader fails")
+	}
 	u := ociunify.New(ms[0].registry(), ms[1].registry(), &ociunify.Options{ReadPolicy: ociunify.ReadConcurrent})
 	ctx, cancel := context.WithCancel(context.Background())
 	defer cancel()
@@ -568,10 +578,10 @@ func enumerate(entry string, emit func(input)) {
 					start := item{Ev: "start", Wait: true}
 					cancel := item{Ev: "cancel", Wait: true}
 					for _, p := range permutations(append(append([]item{}, items...), cancel)) {
-						emit(input{entry, k0, k1, append([]item{start}, p...)})
+						emit(input{Entry: entry, K0: k0, K1: k1, Sched: append([]item{start}, p...)})
 					}
 					for _, p := range permutations(items) {
-						emit(input{entry, k0, k1, append([]item{cancel, start}, p...)})
+						emit(input{Entry: entry, K0: k0, K1: k1, Sched: append([]item{cancel, start}, p...)})
 					}
 				}
 			}
@@ -661,7 +671,10 @@ func main() {
 	}
 	for rep := 0; rep < reps; rep++ {
 		for _, e := range entries {
-			enumerate(e, func(in input) { add(in, "enumerated") })
+			enumerate(e, func(in input) {
+				in.CloseErr = rep%2 == 1 // every schedule is played with and without a failing Close
+				add(in, "enumerated")
+			})
 		}
 	}
 	// bursts: the same events, but not every one waited for, so that answers, cancellation
@@ -714,7 +727,7 @@ func main() {
 				sched = append(sched[:j+1], append([]item{cl}, sched[j+1:]...)...)
 			}
 		}
-		add(input{entry, k0, k1, sched}, "burst")
+		add(input{Entry: entry, K0: k0, K1: k1, Sched: sched, CloseErr: rnd.Intn(2) == 0}, "burst")
 	}
 	finish()
 }
